@@ -22,7 +22,8 @@
     join j    connect + start scope.join() with receiver j (inline scheduler)
   History variables: per-operation phase, `lateNest` (the scope was already closed when nest()
   began), `jbegun`/`jdone` (join started / number of completions), `late` (the event was touched by
-  a completing operation after the owner of the scope was entitled to destroy it).
+  a completing operation after the owner of the scope was entitled to destroy it — never happens
+  since only the `end_scope` call that actually ends the scope sets the event, /repo 5b08c2e).
 
   Observable labels are the strings harness/rt/scn_c08.cpp prints.
 -/
@@ -166,8 +167,9 @@ def stepThr (cfg : Config) (s : St) (t : Nat) : Option (Lbl × St) :=
   | some (.join j) =>
     match th.pc with
     | 0 => some (ev t s!"join{j}.begin", goto { s with jbegun := bump s.jbegun j } t 1)
-    | 1 =>  -- end_scope: opState_.fetch_and(~scopeEndedBit)
-      some (tau t, goto { s with ended := true } t (if s.count = 0 then 2 else 4))
+    | 1 =>  -- end_scope: opState_.fetch_and(~scopeEndedBit); only the call that actually ends the
+            -- scope (old value still open) with count 0 sets the event
+      some (tau t, goto { s with ended := true } t (if !s.ended && s.count = 0 then 2 else 4))
     | 2 => some (tau t, evtExchange s t 3 (fun z => goto z t 4))   -- evt_.set(): exchange
     | 3 => evtResume s t (fun z => goto z t 4)
     | 4 =>  -- start_or_wait: state_.load()
